@@ -92,6 +92,45 @@ def _gv_bad(gvs, answers):
     return False
 
 
+def _term_depth(t):
+    d, stack = 0, [(t, 1)]
+    while stack:
+        x, k = stack.pop()
+        d = max(d, k)
+        if x["t"] == "c":
+            for a in x["a"]:
+                stack.append((a, k + 1))
+    return d
+
+
+def _body_size(b):
+    """(constructs and goals in the body, deepest term)"""
+    k = b["b"]
+    if k == "call":
+        return 1, _term_depth(b["g"])
+    if k in ("and", "or"):
+        (n1, d1), (n2, d2) = _body_size(b["l"]), _body_size(b["r"])
+        return n1 + n2 + (1 if k == "or" else 0), max(d1, d2)
+    if k == "then":
+        (n1, d1), (n2, d2) = _body_size(b["c"]), _body_size(b["t"])
+        return n1 + n2 + 1, max(d1, d2)
+    if k == "not":
+        n, d = _body_size(b["g"])
+        return n + 1, d
+    return 1, 0
+
+
+def _has_large_clause(script):
+    """the compiler may refuse a clause that is too large for Python (CompilerLimitError: 20 nested blocks,
+    200 nested parentheses); far below those sizes a refusal is a defect, not a limit"""
+    for cls in script.values():
+        for c in cls:
+            n, d = _body_size(c["body"])
+            if n > 10 or max(d, _term_depth(c["h"])) > 60:
+                return True
+    return False
+
+
 def _baton(batons, t):
     """one OS thread per scenario thread; the caller hands control over op by op"""
     import concurrent.futures
@@ -114,7 +153,7 @@ def replay_one(scn, rec, opts):
         res.update(status="violation", step=0, kind="setup", detail="%s: %s" % (type(e).__name__, e))
         return res
     fuel = rec.get("fuel", 0)
-    budget = 1000 * fuel + 100000
+    budget = 1000 * fuel + 100000 + opts.get("budget_extra", 0)
     batons = {}
     try:
         for i, h in enumerate(rec["hist"]):
@@ -140,7 +179,7 @@ def replay_one(scn, rec, opts):
             except RecursionError as e:
                 viol = ("exception", "RecursionError")
             except Exception as e:
-                if op["op"] in ("load", "loadfail") and type(e).__name__ == "CompilerLimitError":
+                if op["op"] in ("load", "loadfail") and type(e).__name__ == "CompilerLimitError" and _has_large_clause(scn["scripts"].get(op.get("script"), {})):
                     # the compiler itself reports that a clause is too large for Python: allowed
                     res["status"] = "truncated"
                     res["why"] = "clause-too-large"
@@ -191,6 +230,11 @@ def replay_one(scn, rec, opts):
                         b = real.bound_registry()
                         if b:
                             viol = ("bound", "%d variables still bound although no query is suspended" % len(b))
+                    if viol is None and opts.get("c15", True):
+                        fz = runner.check_frozen()
+                        if fz:
+                            viol = ("frozen", "a value returned by a query that has ended changed when something else ran later")
+                            obs, exp = fz, []
                     if viol is None and "nlog" in exp and opts.get("check_nlog"):
                         if norm(runner.nstate.log) != norm(exp["nlog"]):
                             viol = ("nlog", "arguments received by native predicates differ")
